@@ -7,9 +7,11 @@
 //! The real stdout/stderr of the process are whatever the caller gave it; lace prints program and
 //! debugger output there, so the driver points them at /dev/null.
 
+mod dbgmon;
 mod exec;
 mod progs;
 mod refasm;
+mod refdbg;
 mod refvm;
 mod util;
 
@@ -18,6 +20,12 @@ mod c02;
 mod c03;
 mod c04;
 mod c05;
+mod c09;
+mod c10;
+mod c11;
+mod c12;
+mod c13;
+mod c16;
 
 use std::time::Instant;
 
@@ -133,6 +141,30 @@ fn main() {
         "C03" => {
             c03::run(&cfg, &mut col);
             sv(c03::FLOORS)
+        }
+        "C10" => {
+            c10::run(&cfg, &mut col);
+            sv(c10::FLOORS)
+        }
+        "C11" => {
+            c11::run(&cfg, &mut col);
+            sv(c11::FLOORS)
+        }
+        "C09" => {
+            c09::run(&cfg, &mut col);
+            sv(c09::FLOORS)
+        }
+        "C12" => {
+            c12::run(&cfg, &mut col);
+            sv(c12::FLOORS)
+        }
+        "C13" => {
+            c13::run(&cfg, &mut col);
+            sv(c13::FLOORS)
+        }
+        "C16" => {
+            c16::run(&cfg, &mut col);
+            sv(c16::FLOORS)
         }
         "C04" => {
             c04::run(&cfg, &mut col);
